@@ -16,7 +16,7 @@ func (fr *Frame) val(v ssa.Value) Val {
 	case *ssa.Const:
 		return TV(fr.constTerm(v))
 	case *ssa.Global:
-		return Val{Loc: &Loc{Kind: LGlobal, Glob: v, Type: v.Type().(*types.Pointer).Elem(), Const: !fr.R.Eng.mutableGl[v]}}
+		return Val{Loc: &Loc{Kind: LGlobal, Glob: v, Type: v.Type().(*types.Pointer).Elem(), Const: !fr.R.Eng.mutableGl[v] && !fr.R.inInit}}
 	case *ssa.Function:
 		name := "fn." + sanitize(fr.R.fnShort(v))
 		t := fr.R.Sc.Declare(name, SInt)
@@ -417,6 +417,9 @@ func (fr *Frame) execInstr(in ssa.Instruction) {
 			v.T = fr.termOf(v)
 		}
 		fr.store(l, fr.termOf(v))
+		if g, ok := in.Addr.(*ssa.Global); ok && fr.top && fr.Fn.Name() == "init" {
+			fr.checkGlobalInvAtStore(g, in.Pos())
+		}
 		if l.Kind == LReg && v.Loc != nil {
 			// remember the address held by a local so a later load gives the same Loc back
 			fr.R.addrTable[fr.termOf(v).S] = v.Loc
